@@ -314,6 +314,10 @@ func c08Gen(tier string, seed int64) []core.Case {
 				scheds = []string{"random"}
 			}
 		}
+		if !strings.HasPrefix(sc.proto, "ecdsa-keygen") && !strings.HasPrefix(sc.proto, "ecdsa-resharing") || tier == "thorough" {
+			// the last party is started only when nothing else can happen: it holds messages before its own Start
+			scheds = append(scheds, "prestart-last")
+		}
 		for _, sch := range scheds {
 			p := sc.P()
 			p["sched"] = sch
@@ -421,6 +425,9 @@ func c08Run(c core.Case, env *core.Env) core.Result {
 	}
 	mon := attachRoundMon(w, &r)
 	sched := sim.StartsThen(schedByName(c.P.Str("sched"), w))
+	if c.P.Str("sched") == "prestart-last" {
+		sched = sim.Starve(len(w.Nodes)-1, sim.FIFO)
+	}
 	var release func()
 	if c.Kind == "flip" {
 		if c.P.Bool("hold") {
